@@ -7,7 +7,7 @@ HotTags = {"", "nm", "oe", "str", "dash"}
 NbrSet = "quick"
 EmbKinds = {"E1", "*E1", "E2", "E3", "E4", "*P2", "*Q2", "R1"}
 NameMenu = {"A", "ID", "Ab", "URL", "Abc", "AbC", "DNSX", "AbCd", "ABcd"}
-TwoVariant = {"[0]uint8", "[1]uint8", "bool", "int", "uint8", "float", "string", "[2]float32", "[2]int", "time", "MyInt", "Simp", "PSimp", "Gen", "JM", "PJM", "TM"}
+TwoVariant = {"[0]uint8", "[1]uint8", "bool", "int", "uint8", "string", "[2]float32", "[2]int", "time", "MyInt", "Simp", "PSimp", "Gen", "JM", "PJM", "TM"}
 NbrDistinct = TRUE
 CONSTRAINT Emit
 CHECK_DEADLOCK FALSE
